@@ -15,7 +15,7 @@ for d in sorted(glob.glob(os.path.join(V, "seeded", "*"))):
     need = m.get("needs_to_manifest", "")
     first = "missed — " + m.get("strengthening", "") if m.get("missed_by_first_version_of_check") else "detected"
     out.append("| `%s` | %s | %s | %s | %s | %s | %s |" % (os.path.basename(d), m["property"], need, "yes" if m["confirmed_independently"] else "NO",
-               "**detected**" if m["detected_by_quick_check"] else "missed", first, " ".join("`%s`" % k.replace("key=", "") for k in m["violation_keys"][:3])))
+               "**detected**" if m["detected_by_quick_check"] else ("own check: not in its scope — **detected by " + m["detected_by_other_check"] + "**" if m.get("detected_by_other_check") else "missed"), first if m["detected_by_quick_check"] else "—", " ".join("`%s`" % k.replace("key=", "") for k in m["violation_keys"][:3])))
 out.append("")
 out.append("### 10.2 My own property-breaking changes (`/verif/mutants/*.diff`, run by `selftest.sh`)\n")
 out.append("`repo tests` = whether the repository's own 218 tests still pass with the change (changes that the tests already kill are kept as detection demonstrations only).\n")
